@@ -16,4 +16,19 @@ theorem refill_src (s : RandState) : (s.next.2.batch = s.batch + 1 ↔ s.ptr = 2
   unfold RandState.next BATCH
   split <;> simp_all
 
+/-- one step of the model's `logCounter` is the loop body of `_log_counter` as translated from the
+    source, with `below` = (counter < num_reserved) and `inc` = the decision on the draw that `_rand`
+    hands out; the draw pointer moves exactly when the source calls `_rand` -/
+theorem logCounterStep_src {D : Type} (cfg : LogCfg D) (draws : Nat → Nat → D) (c : Nat) (rs : RandState) :
+    let r := Src.logCounterStep c cfg.maxc (decide (c < cfg.nr)) (cfg.inc (c - cfg.nr) (draws rs.next.1.1 rs.next.1.2)) rs.ptr
+    (logCounter cfg draws 1 c rs).1 = r.2.1 ∧ (logCounter cfg draws 1 c rs).2.ptr = r.2.2 := by
+  unfold Src.logCounterStep
+  simp only [logCounter, decide_eq_true_eq, ← randNext_src]
+  by_cases h1 : c ≥ cfg.maxc
+  · simp [h1]
+  · by_cases h2 : c < cfg.nr
+    · simp [h1, h2]
+    · simp only [h1, h2, if_false]
+      split <;> simp_all
+
 end Sketchnu.SrcRand
